@@ -769,7 +769,7 @@ func (ev *evaluator) evalIndex(x *EIndex) SV {
 				}
 			}
 			h := ev.heapRaw(elemHeapName(es), arrSort(SInt, arrSort(SInt, es)))
-			return SV{tSelect(tSelect(h, slArr(bv)), tAdd(slOff(bv), idx)), et}
+			return SV{tSelect(tSelect(h, slArr(bv)), tIx(slOff(bv), idx)), et}
 		}
 		if base.GT != nil {
 			if mt, ok := unalias(base.GT).Underlying().(*types.Map); ok {
